@@ -136,7 +136,7 @@ class Explorer:
                  config_attrs=DEFAULT_CONFIG_ATTRS, relevant: Optional[Callable[[ast.AST], bool]] = None,
                  never_inline: Set[str] = frozenset(), process_loop_once: bool = True,
                  interrupt_edges: bool = True, assume: Optional[Callable] = None, track_attrs: bool = False,
-                 stmt_hook: Optional[Callable] = None):
+                 stmt_hook: Optional[Callable] = None, recv: str = 'self', split_bool_returns: bool = False):
         self.p = project
         self.cls_key = cls_key
         self.methods = project.methods(cls_key) if cls_key else {}
@@ -154,6 +154,8 @@ class Explorer:
         self.assume = assume
         self.track_attrs = track_attrs
         self.stmt_hook = stmt_hook
+        self.recv = recv
+        self.split_bool_returns = split_bool_returns
         self._modsum: Dict[str, Set[str]] = {}
         self.npaths = 0
         self.handlers: List[Set[str]] = []
@@ -228,8 +230,12 @@ class Explorer:
             self.emit(st, 'cond', at, node=None, text=f'<assume invariant: {why}>', polarity=True, atoms=atoms, synthetic=True)
 
     def tracked_list(self, node) -> Optional[str]:
-        a = self_attr(node)
-        return a if a in self.tracked else None
+        if self.recv == 'self':
+            a = self_attr(node)
+            return a if a in self.tracked else None
+        if isinstance(node, ast.Attribute) and node.attr in self.tracked and ast.unparse(node.value) == self.recv:
+            return node.attr
+        return None
 
     def lin_env(self, st: St):  # noqa
         env = {}
@@ -244,7 +250,7 @@ class Explorer:
 
     def try_lin(self, node, st: St) -> Optional[lin.Lin]:
         try:
-            return lin.linexpr(node, self.lin_env(st), 'self', None, lenvar=self.lenvar_fn(st))
+            return lin.linexpr(node, self.lin_env(st), self.recv, None, lenvar=self.lenvar_fn(st))
         except lin.NonLinear:
             return None
 
@@ -796,8 +802,8 @@ class Explorer:
         # linear decision from the conditions of the same atomic segment
         try:
             lv = self.lenvar_fn(st)
-            at = lin.atom_from_compare(node, True, self.lin_env(st), 'self', None, lenvar=lv)
-            naf = lin.atom_from_compare(node, False, self.lin_env(st), 'self', None, lenvar=lv)
+            at = lin.atom_from_compare(node, True, self.lin_env(st), self.recv, None, lenvar=lv)
+            naf = lin.atom_from_compare(node, False, self.lin_env(st), self.recv, None, lenvar=lv)
         except lin.NonLinear:
             return None
         pa = self.path_atoms(st)
@@ -917,7 +923,7 @@ class Explorer:
 
     def atoms_of(self, node, polarity, st: St):
         try:
-            return lin.atom_from_compare(node, polarity, self.lin_env(st), 'self', None, lenvar=self.lenvar_fn(st))
+            return lin.atom_from_compare(node, polarity, self.lin_env(st), self.recv, None, lenvar=self.lenvar_fn(st))
         except lin.NonLinear:
             pass
         # `x in self.L` true  =>  |L| > 0
@@ -1051,6 +1057,16 @@ class Explorer:
                 self.emit(st, 'return', n, value=NONE)
                 return [(st, 'return')]
             res = []
+            if self.split_bool_returns and (isinstance(n.value, (ast.Compare, ast.BoolOp))
+                                            or (isinstance(n.value, ast.UnaryOp) and isinstance(n.value.op, ast.Not))):
+                for b, s in self.cond(n.value, st):
+                    if b is RAISE:
+                        res.append((s, self.raise_status(s)))
+                        continue
+                    s.ret = ('const', bool(b))
+                    self.emit(s, 'return', n, value=s.ret)
+                    res.append((s, 'return'))
+                return res
             for v, s in self.ev(n.value, st):
                 if v == RAISE:
                     res.append((s, self.raise_status(s)))
